@@ -31,6 +31,8 @@ func init() {
 			{ID: "C16.10", Desc: "a response object built by copying another one gets a header map of its own", Run: ruleC16_10, MinSites: 0},
 			{ID: "C16.11", Desc: "the background revalidation works on a copy of the caller's request", Run: func(c *Ctx) { ruleC20_6(c); renameRule(c, "C20.6", "C16.11") }, MinSites: 1},
 			{ID: "C16.12", Desc: "the value slices of the caller's request header are never written", Run: func(c *Ctx) { ruleCallerHeaderValuesUntouched(c, "C16.12") }, MinSites: 1},
+			{ID: "C16.13", Desc: "the body handed to the caller is not read again by the cache", Run: func(c *Ctx) { ruleBodyHandedBackLast(c, "C16.13") }, MinSites: 1},
+			{ID: "C16.14", Desc: "the key function does not write through the caller's URL", Run: func(c *Ctx) { ruleKeyFunctionLeavesURLAlone(c, "C16.14") }, MinSites: 1},
 		},
 	})
 }
